@@ -436,8 +436,8 @@ class CallMixin:
     def list_count(self, lst, x, p, line):
         if lst.kind == 'strint' and isinstance(x, VStr):
             k, t = self.str_to_elem(x, 'strint')
-            j = z3.Int('cntj')
-            return VInt(self.lemmas.Count(z3.Lambda([j], z3.If(z3.Select(lst.arr, j) == t, 1, 0)), lst.len))
+            j = fresh('cntj', I)
+            return VInt(self.lemmas.SumA(self.lemmas.named_array(j, z3.If(z3.Select(lst.arr, j) == t, z3.IntVal(1), z3.IntVal(0)), []), lst.len))
         raise Undecided('list.count')
 
     def str_replace(self, recv, a, p, line): raise Undecided('str.replace at line %d' % line)
@@ -450,4 +450,4 @@ class CallMixin:
 BUILTINS = {'len', 'str', 'int', 'float', 'max', 'min', 'abs', 'pow', 'isinstance', 'hasattr', 'list', 'range', 'print'}
 SPECFUNS = {'forall', 'exists', 'implies', 'ite', 'old', 'kind', 'value', 'Sum', 'Count', 'iff', 'forall2', 'tok',
             'select', 'has', 'attr', 'store_len', 'nu', 'Tot', 'alloc', 'real', 'SumR', 'opt_is_none', 'opt_val',
-            'is_list', 'is_int', 'py_int', 'py_head', 'py_tail', 'py_len', 'elems', 'pelems', 'dupfree', 'appended', 'lemma', 'ModelWF', 'unchanged', 'distinct_refs', 'Row', 'LL', 'PL'}
+            'joined', 'after', 'lam', 'is_list', 'is_int', 'py_int', 'py_head', 'py_tail', 'py_len', 'elems', 'pelems', 'dupfree', 'appended', 'lemma', 'ModelWF', 'unchanged', 'distinct_refs', 'Row', 'LL', 'PL'}
